@@ -148,6 +148,45 @@ def data_path(ch, ctx, lang, pairs=False, twin=False):
     return {"value": repr(v)[:60], "lang": lang, "persisted": crash}
 
 
+def no_leak(ch, ctx, lang, twin=False):
+    """Two satisfied transitions of one task: what the first publishes (x := result) must not be
+    visible to the second (y := ctx(x) is the workflow input x)."""
+    e = (lambda b: "<% " + b + " %>") if lang == "yaql" else (lambda b: "{{ " + b + " }}")
+    v = VALUES[ch.pick("value", len(VALUES))]
+    d = {"version": 1.0, "input": ["x"], "tasks": {
+        "t1": {"action": "core.noop", "next": [{"publish": [{"x": e("result()")}], "do": "a"}, {"publish": [{"y": e("ctx().x")}, {"d": {"b": 2}}], "do": "b"}]},
+        "a": {"action": "core.echo", "input": {"m": e("ctx().x")}},
+        "b": {"action": "core.echo", "input": {"m": e("ctx().y"), "d": e("ctx().get('d')") if lang == "jinja" else e("ctx().get(d)")}},
+    }}
+    key = "leak:" + lang
+    if key not in SPECS:
+        s = native_specs.WorkflowSpec(d)
+        assert not s.inspect(), s.inspect()
+        SPECS[key] = s
+    c = ctx["counters"]
+    c["c16_values"] = c.get("c16_values", 0) + 1
+    env = Env(ch, RawDef("L[%s]" % lang, SPECS[key], {"x": "original"}), "C16", monitors=[], policy=Policy(steps=1, order=False))
+    try:
+        env.start()
+        env.report(0, S.SUCCEEDED, v)
+        offered = {t["id"]: t["actions"][0]["input"] for t in env.offers()}
+        if not same(offered.get("a", {}).get("m"), v):
+            x = Violation("C16", "value-changed", "C16 task a receives %r for the published result %r" % (offered.get("a"), v), {"stage": "publish"})
+            raise x
+        if offered.get("b", {}).get("m") != "original":
+            x = Violation("C16", "context-modified-by-evaluation", "C16 the second transition of t1 sees x=%r, the context it is evaluated against has x='original' (what the first transition published leaked)" % (offered.get("b", {}).get("m"),), {"stage": "sibling-transition"})
+            raise x
+    except Violation as x:
+        x.definition = "L[%s]" % lang
+        x.log = list(env.log)
+        raise
+    if twin:
+        x = Violation("C16", "reachability-twin", "done", {})
+        x.definition = "twin"
+        raise x
+    return {"lang": lang, "value": repr(v)[:40]}
+
+
 def delimiter_lemma(ob_):
     """E3: a string with no expression delimiter is matched by no evaluator (live patterns)."""
     maxlen = ob_["params"].get("maxlen", 10)
@@ -227,6 +266,10 @@ def obligations(tier):
         o["antecedents"] = ["c16_values"]
         obs.append(o)
         o = ob("C16", "e2c.republish." + lang, "vt.harness.C16:data_path", {"lang": lang, "pairs": True}, timeout=900)
+        o["antecedents"] = ["c16_values"]
+        obs.append(o)
+    for lang in ("yaql", "jinja"):
+        o = ob("C16", "e2c.noleak." + lang, "vt.harness.C16:no_leak", {"lang": lang}, timeout=600)
         o["antecedents"] = ["c16_values"]
         obs.append(o)
     obs.append(ob("C16", "twin.path", "vt.harness.C16:data_path", {"lang": "yaql", "twin": True}, timeout=120))
